@@ -18,7 +18,8 @@ from ..motlutil import FIELDS
 HOLE = 1000000          # wire code of the missing value (EmMotlIO.tla HoleCode)
 PROPS = ["C01_FileLayout", "C01_RoundTrip", "C01_OrderIrrelevantStep", "C01_PathsAgree"]
 INVS = ["TypeOK", "C01_OrderIrrelevant", "C01_Idempotent"]
-ALL_OPS = ["swap", "write_motl", "write_emmotl", "load", "adopt"]
+ALL_OPS = ["swap", "write_motl", "write_emmotl", "load", "adopt", "droprow", "duprows"]
+ALL_HDR = ["absent", "none", "empty", "other"]
 IO_OPS = ["write_motl", "write_emmotl", "load"]
 
 # float64 values that exercise the narrowing: not float32-representable, large, tiny, subnormal in float32, integers
@@ -28,17 +29,21 @@ POOL = [0.1, -2.7, 1.0 / 3.0, 16777217.0, -16777219.0, 3.4e38, -3.4e38, 1.0e-40,
         1e10, 5e-324 + 1e-30, 299792458.123]
 
 
-def cfg(canon, init, ops, pos, depth, mode, writer="byname", emit=False, invs=True, props=PROPS, view=True):
+def cfg(canon, init, ops, pos, depth, mode, writer="byname", emit=False, invs=True, props=PROPS, view=True, hdrs=ALL_HDR,
+        route=False):
     lines = ["SPECIFICATION Spec", "CONSTANTS", " Canon <- %s" % canon, " InitTables <- %s" % init,
-             " Ops = {%s}" % ", ".join('"%s"' % o for o in ops), " SwapPos <- %s" % pos, " MaxDepth = %d" % depth,
+             " Ops = {%s}" % ", ".join('"%s"' % o for o in ops), " HdrSet = {%s}" % ", ".join('"%s"' % h for h in hdrs),
+             " SwapPos <- %s" % pos, " MaxDepth = %d" % depth,
              ' EmitMode = "%s"' % mode, ' Writer = "%s"' % writer]
     if invs:
         lines += ["INVARIANT %s" % i for i in INVS]
     lines += ["PROPERTY %s" % p for p in props]
+    if route:
+        lines += ["ACTION_CONSTRAINT RouteOnly"]
     if emit:
         lines += ["ACTION_CONSTRAINT EmitStep"]
     if mode == "hist":
-        lines += ["CONSTRAINT EmitHist"]
+        lines += ["CONSTRAINT EmitRouteHist" if route else "CONSTRAINT EmitHist"]
     elif view:
         lines += ["VIEW View"]
     return "\n".join(lines) + "\n"
@@ -200,10 +205,34 @@ def check_table(ctx, df, tbl, vals, case, sig, clause, positional=False):
 
 
 # ---- execution ------------------------------------------------------------------------------------------
-def do_write(opname, df, path, variant=0):
+def header_arg(op, path, variant):
+    """The header= argument named by the op: None, {}, or the header of another motive-list file with op['hn']
+    particles (written by the independent writer, read through the public EmMotl.read_in / the EmMotl constructor)."""
     from cryocat import cryomotl
+    h = op.get("hdr", "absent")
+    if h == "none":
+        return None
+    if h == "empty":
+        return {}
+    other = path + ".other.em"
+    n = op["hn"]
+    parsers.write_em(other, (20, n, 1), "float32", [float((7 * q) % 23) - 3.5 for q in range(20 * n)])
+    try:
+        if variant % 2:
+            return cryomotl.EmMotl.read_in(other)[1]
+        import emfile
+        return emfile.read(other, header_only=True)[0]
+    finally:
+        os.remove(other)
+
+
+def do_write(op, df, path, variant=0):
+    from cryocat import cryomotl
+    opname = op["name"]
     if opname == "write_motl":
         cryomotl.Motl(df).write_out(path, "emmotl")
+    elif op.get("hdr", "absent") != "absent":
+        cryomotl.EmMotl(df, header=header_arg(op, path, variant)).write_out(path)
     elif variant % 4 == 3:
         # the list acquires its table (with its missing values) after construction
         m = cryomotl.EmMotl()
@@ -238,9 +267,11 @@ def run_transition(ctx, tr, variant, vseed):
         tbl = tr["pre"]["tbl"]
         sig = {"op": op, "order": order_class(tbl["order"])}
         df = build_table(tbl, vals, variant)
-        _, err = core.call_guarded(do_write, op, df, path, variant)
+        if tr["op"].get("hdr", "absent") != "absent":
+            sig["hdr"] = tr["op"]["hdr"]
+        _, err = core.call_guarded(do_write, tr["op"], df, path, variant)
         if err is not None:
-            ctx.fail("call_raises", "%s: %s" % (op, err), case, sig)
+            ctx.fail("call_raises", "%s: %s" % (tr["op"], err), case, sig)
         else:
             check_file(ctx, path, tr["post"]["disk"], vals, case, sig)
     elif op == "load":
@@ -278,6 +309,7 @@ def run_behaviour(ctx, hist, variant, vseed):
         return
     loaded = None
     held = []            # (step, table object returned by an earlier load, copy taken when it was returned)
+    adopted = False
     for i, st in enumerate(hist[1:], start=1):
         op = st["op"]["name"]
         post = st["post"]
@@ -295,8 +327,27 @@ def run_behaviour(ctx, hist, variant, vseed):
             cur = post["tbl"]
             if not check_table(ctx, motl.df, cur, vals, case, sig, "constructor_accepts_any_order", positional=True):
                 break
+        elif op in ("droprow", "duprows"):
+            # the list at hand is filtered / extended in place (m.df = m.df[mask], pd.concat) before it is written again
+            import pandas as pd
+            if op == "droprow":
+                keep = [k for k in range(motl.df.shape[0]) if k != st["op"]["r"] - 1]
+                motl.df = motl.df.iloc[keep] if (variant + i) % 2 else motl.df.iloc[keep].reset_index(drop=True)
+            else:
+                motl.df = pd.concat([motl.df, motl.df], ignore_index=bool((variant + i) % 2))
+            cur = post["tbl"]
+            if not check_table(ctx, motl.df, cur, vals, case, sig, "harness_table_edit", positional=True):
+                raise core.MachineryError("harness: table edit %s did not produce the specification's table" % op)
         elif op in ("write_motl", "write_emmotl"):
-            if op == "write_motl" and type(motl) is cryomotl.Motl:
+            hdr = st["op"].get("hdr", "absent")
+            if hdr != "absent":
+                sig["hdr"] = hdr
+            if op == "write_emmotl" and hdr != "absent":
+                _, err = core.call_guarded(lambda: cryomotl.EmMotl(motl.df, header=header_arg(st["op"], path, variant + i)).write_out(path))
+            elif op == "write_emmotl" and isinstance(motl, cryomotl.EmMotl):
+                # the loaded (and possibly filtered / extended) object writes itself
+                _, err = core.call_guarded(lambda: motl.write_out(path))
+            elif op == "write_motl" and type(motl) is cryomotl.Motl:
                 _, err = core.call_guarded(lambda: motl.write_out(path, "emmotl"))
             elif op == "write_motl":
                 # a loaded list is an EmMotl, whose write_out takes the path only; the Motl.write_out path of the
@@ -305,7 +356,7 @@ def run_behaviour(ctx, hist, variant, vseed):
             else:
                 _, err = core.call_guarded(lambda: cryomotl.EmMotl(motl.df).write_out(path))
             if err is not None:
-                ctx.fail("call_raises", "step %d %s: %s" % (i, op, err), case, sig)
+                ctx.fail("call_raises", "step %d %s: %s" % (i, st["op"], err), case, sig)
                 break
             if not check_file(ctx, path, post["disk"], vals, case, sig):
                 break
@@ -316,9 +367,13 @@ def run_behaviour(ctx, hist, variant, vseed):
                 break
             if not check_table(ctx, loaded.df, post["mem"], vals, case, sig, "C01_RoundTrip"):
                 break
-            held.append((i, loaded, loaded.df.copy(deep=True)))
+            held.append((i, loaded.df, loaded.df.copy(deep=True)))
+            adopted = False
         elif op == "adopt":
-            motl = loaded
+            # go on with the loaded object itself; once the harness has edited it (droprow / duprows assign to its df),
+            # a later adopt of the same loaded list takes a fresh object on the table as it was loaded
+            motl = loaded if not adopted else cryomotl.EmMotl(held[-1][2].copy(deep=True))
+            adopted = True
             cur = post["tbl"]
             if not check_table(ctx, motl.df, cur, vals, case, sig, "C01_RoundTrip"):
                 break
@@ -331,8 +386,7 @@ def run_behaviour(ctx, hist, variant, vseed):
 
 def recheck_held(ctx, held, now, case):
     """A list that an earlier Motl.load returned must still be what it was after later calls."""
-    for step_no, obj, snap in held:
-        df = obj.df
+    for step_no, df, snap in held:
         same = list(df.columns) == list(snap.columns) and df.shape == snap.shape and \
             np.array_equal(df.to_numpy(dtype=float), snap.to_numpy(dtype=float), equal_nan=True)
         if not same:
@@ -428,7 +482,7 @@ def run(ctx):
     # ---- L2: the small scope lifted to the 20 real fields, every transition replayed
     if not only or "lift" in only:
         pl, par = write_params(ctx, "lift", lift_k2=ctx.pick(1, 2))
-        res = ctx.tlc("MC_EmMotlIO", cfg("Canon20", "LiftInit", IO_OPS, "LiftPos", 2, "none", emit=True), name="lift",
+        res = ctx.tlc("MC_EmMotlIO", cfg("Canon20", "LiftInit", IO_OPS, "LiftPos", 2, "none", emit=True, hdrs=["absent", "other"]), name="lift",
                       env={"C01_PARAMS": pl}, workers=1)
         trs = res.records
         if len(trs) < 1000:
@@ -441,8 +495,8 @@ def run(ctx):
 
     # ---- L2: seeded random 20-field permutations, N up to 50 (thorough: also 100..400)
     if not only or "cases" in only:
-        total = ctx.pick(250, 4500)
-        chunk = ctx.pick(250, 1500)
+        total = ctx.pick(200, 4000)
+        chunk = ctx.pick(200, 1000)
         done = 0
         ci = 0
         while done < total:
@@ -451,7 +505,8 @@ def run(ctx):
             if not ctx.quick and ci == 0:
                 cases += [gen_case(ctx.rng, 50, big=True) for _ in range(12)]
             pc, _ = write_params(ctx, "cases%d" % ci, cases=cases)
-            res = ctx.tlc("MC_EmMotlIO", cfg("Canon20", "CaseInit", IO_OPS, "LiftPos", 2, "none", emit=True, invs=False),
+            res = ctx.tlc("MC_EmMotlIO", cfg("Canon20", "CaseInit", IO_OPS, "LiftPos", 2, "none", emit=True, invs=False,
+                                             hdrs=["absent", "none", "other"] if ci % 2 else ["absent", "empty", "other"]),
                           name="cases%d" % ci, env={"C01_PARAMS": pc}, workers=1)
             if len(res.records) < 2 * len(cases):
                 raise core.MachineryError("cases run emitted %d transitions for %d tables" % (len(res.records), len(cases)))
@@ -466,7 +521,7 @@ def run(ctx):
 
     # ---- L2: behaviours
     if not only or "sim" in only:
-        nsim = ctx.pick(40, 400)
+        nsim = ctx.pick(25, 400)
         sim_cases = [gen_case(ctx.rng, 4) for _ in range(ctx.pick(30, 400))]
         for c in sim_cases:
             if c["n"] > 4:
@@ -475,16 +530,31 @@ def run(ctx):
         ps, _ = write_params(ctx, "sim", sim_cases=sim_cases)
         res = ctx.tlc("MC_EmMotlIO", cfg("Canon20", "SimInit", ALL_OPS, "SimPos", 8, "hist", invs=False), name="sim",
                       env={"C01_PARAMS": ps}, simulate=nsim, depth=10, seed=ctx.seed + 1, workers=1)
+        # the everyday route: load a list, go on with the loaded object, filter / extend it, let it write itself
+        # (exhaustive over the seeded small tables: RouteOnly fixes the order of the five calls)
+        res2 = ctx.tlc("MC_EmMotlIO", cfg("Canon20", "SimInit", ["write_emmotl", "load", "adopt", "droprow", "duprows"],
+                                          "SimPos", 5, "hist", invs=False, hdrs=["absent"], route=True), name="route",
+                       env={"C01_PARAMS": ps}, workers=1)
         seen = set()
         nb = 0
-        for rec in res.records:
+        routes = 0
+        for rec in res.records + res2.records:
             h = rec["hist"]
             key = core.stable_hash(h)
             if key in seen:
                 continue
             seen.add(key)
             nb += 1
+            names = [st["op"]["name"] for st in h]
+            for a in range(len(names)):
+                if names[a] == "adopt" and any(n in ("droprow", "duprows") for n in names[a + 1:]) and \
+                        "write_emmotl" in names[a + 2:]:
+                    routes += 1
+                    break
             run_behaviour(ctx, h, variant=(ctx.seed * 37 + nb) % 100003, vseed=(ctx.seed * 611953 + nb) % 1000003)
         if nb < 5:
             raise core.MachineryError("simulation produced only %d behaviours" % nb)
+        if routes < 3:
+            raise core.MachineryError("coverage hole: only %d behaviours with load -> adopt -> resize -> write" % routes)
         ctx.extra["behaviours_replayed"] = nb
+        ctx.extra["behaviours_load_resize_write"] = routes
